@@ -17,26 +17,41 @@ VARIABLES owner,     \* function address -> owning thread (domain = blocks curre
           seen,      \* every address ever handed out (and not given back to the system by clear)
           nodes,     \* heap nodes of an internal list that currently exist (boxed Treiber stack)
           big,       \* addresses handed out in a size class above the pool's free-list threshold (huge / skip-list sizes)
+          ext,       \* function on the owned addresses: the bytes the owner was promised, <<hi, lo, len>> with
+                     \* start = hi * 2^24 + lo (addresses do not fit TLC's integers) and len bytes
           cnt        \* what the users did: na successful allocations, nr refused ones, nf frees,
                      \* nfbig frees of non-recycled blocks, maxlive = most blocks owned at one instant
-pvars == <<owner, seen, nodes, big, cnt>>
+pvars == <<owner, seen, nodes, big, ext, cnt>>
 
 ZeroCnt == [na |-> 0, nr |-> 0, nf |-> 0, nfbig |-> 0, maxlive |-> 0]
-PoReset == owner = [x \in {} |-> 0] /\ seen = {} /\ nodes = {} /\ big = {} /\ cnt = ZeroCnt
-PoResetNext == owner' = [x \in {} |-> 0] /\ seen' = {} /\ nodes' = {} /\ big' = {} /\ cnt' = ZeroCnt
+PoReset == owner = [x \in {} |-> 0] /\ ext = [x \in {} |-> 0] /\ seen = {} /\ nodes = {} /\ big = {} /\ cnt = ZeroCnt
+PoResetNext == owner' = [x \in {} |-> 0] /\ ext' = [x \in {} |-> 0] /\ seen' = {} /\ nodes' = {} /\ big' = {} /\ cnt' = ZeroCnt
 PoInit == PoReset
 
 Range(s) == { s[i] : i \in 1..Len(s) }
 Max(a, b) == IF a >= b THEN a ELSE b
 Live == Cardinality(DOMAIN owner)
 
+(* ---- byte ranges: two blocks owned at the same time have disjoint ranges [start, start + len) ---- *)
+W == 16777216
+Norm(h, l) == IF l >= W THEN <<h + 1, l - W>> ELSE <<h, l>>
+End(r) == Norm(r[1], r[2] + r[3])                      \* len < 2^24
+Less(p, q) == p[1] < q[1] \/ (p[1] = q[1] /\ p[2] < q[2])
+Leq(p, q) == ~Less(q, p)
+Disjoint(r, q) == r[3] = 0 \/ q[3] = 0 \/ Leq(End(r), <<q[1], q[2]>>) \/ Leq(End(q), <<r[1], r[2]>>)
+(* the owned blocks a new block r would share bytes with *)
+Conflicts(r) == { x \in DOMAIN owner : ~Disjoint(ext[x], r) }
+
 (* one call returned the addresses `addrs` to thread t (rcs[i]: block i belongs to a class the   *)
 (* pool recycles).  Nobody may own any of them, they are pairwise distinct, and a pool of fixed   *)
 (* capacity cap (0 = not fixed) never has more than cap blocks out at one instant.                *)
-AllocBulkOk(t, addrs, rcs, cap) ==
+AllocBulkOk(t, addrs, rcs, cap, rs) ==
     LET S == Range(addrs) IN
-    /\ Len(addrs) = Cardinality(S)
+    /\ Len(addrs) = Cardinality(S) /\ Len(rs) = Len(addrs)
     /\ S \cap DOMAIN owner = {}
+    /\ \A i \in 1..Len(rs) : Conflicts(rs[i]) = {}
+    /\ \A i, j \in 1..Len(rs) : i < j => Disjoint(rs[i], rs[j])
+    /\ ext' = [x \in DOMAIN owner \cup S |-> IF x \in S THEN rs[CHOOSE i \in 1..Len(addrs) : addrs[i] = x] ELSE ext[x]]
     /\ cap > 0 => Live + Len(addrs) <= cap
     /\ owner' = [x \in DOMAIN owner \cup S |-> IF x \in S THEN t ELSE owner[x]]
     /\ seen' = seen \cup S
@@ -44,13 +59,16 @@ AllocBulkOk(t, addrs, rcs, cap) ==
     /\ cnt' = [cnt EXCEPT !.na = @ + Len(addrs), !.maxlive = Max(@, Live + Len(addrs))]
     /\ UNCHANGED nodes
 (* allocate returned address a to thread t *)
-AllocOk(t, a, rc, cap) == AllocBulkOk(t, <<a>>, <<rc>>, cap)
+AllocOk(t, a, rc, cap, r) == AllocBulkOk(t, <<a>>, <<rc>>, cap, <<r>>)
 (* allocate refused (pool exhausted, retries exceeded): always acceptable *)
-AllocRefused(t) == cnt' = [cnt EXCEPT !.nr = @ + 1] /\ UNCHANGED <<owner, seen, nodes, big>>
-(* thread t starts freeing a: it must own it *)
-FreeStart(t, a) ==
+AllocRefused(t) == cnt' = [cnt EXCEPT !.nr = @ + 1] /\ UNCHANGED <<owner, seen, nodes, big, ext>>
+(* thread t starts freeing a: it must own it, and the bytes it wrote into the block are still there *)
+(* (intact: the owner filled the whole block when it got it and compared it just before this call) *)
+FreeStart(t, a, intact) ==
     /\ a \in DOMAIN owner /\ owner[a] = t
+    /\ intact
     /\ owner' = [x \in DOMAIN owner \ {a} |-> owner[x]]
+    /\ ext' = [x \in DOMAIN owner \ {a} |-> ext[x]]
     /\ cnt' = [cnt EXCEPT !.nf = @ + 1, !.nfbig = @ + (IF a \in big THEN 1 ELSE 0)]
     /\ UNCHANGED <<seen, nodes, big>>
 (* the free call returned: freeing a block one owns must succeed *)
@@ -59,14 +77,14 @@ FreeDone(t, ok) == ok /\ UNCHANGED pvars
 (* clear() returned: the pool gave its cached free blocks back to the system.  Blocks owned at    *)
 (* that moment are untouched (they are still expected back after their free); the others need not  *)
 (* come out of the pool again.                                                                      *)
-ClearDone(ok) == IF ok THEN seen' = DOMAIN owner /\ UNCHANGED <<owner, nodes, big, cnt>>
+ClearDone(ok) == IF ok THEN seen' = DOMAIN owner /\ UNCHANGED <<owner, nodes, big, ext, cnt>>
                        ELSE UNCHANGED pvars
 (* validate() of the pool / of an owned block: the structures are well formed *)
 Validate(ok) == ok /\ UNCHANGED pvars
 
 (* internal list nodes (hook sites tb.push.alloc / tb.pop.freed / tb.pop.next) *)
-NodeAlloc(n) == nodes' = nodes \cup {n} /\ UNCHANGED <<owner, seen, big, cnt>>
-NodeFree(n) == n \in nodes /\ nodes' = nodes \ {n} /\ UNCHANGED <<owner, seen, big, cnt>>
+NodeAlloc(n) == nodes' = nodes \cup {n} /\ UNCHANGED <<owner, seen, big, ext, cnt>>
+NodeFree(n) == n \in nodes /\ nodes' = nodes \ {n} /\ UNCHANGED <<owner, seen, big, ext, cnt>>
 (* NoDanglingDeref: a node is dereferenced only while it exists *)
 NodeDeref(n) == n \in nodes /\ UNCHANGED pvars
 
